@@ -31,7 +31,7 @@ def _is_invalidation(node, key_ok):
 
 
 def run(ctx):
-    p = ctx.p
+    p, cg = ctx.p, ctx.cg
     ed = ctx.cls("EventDispatcher")
     methods = {n: m for n, m in ed.methods.items()}
     init = methods.get("__init__")
@@ -279,6 +279,41 @@ def run(ctx):
             r.ok("%s: %s" % (dp.short, norm(c)))
         else:
             r.fail(dp, c, norm(c), "dispatch loop is given a different event name")
+    # ---------------------------------------------------------------- R7
+    r = ctx.rule("C12-R7", "OWNER", "no event object is shared between dispatches: parameter defaults of the event "
+                 "classes are constants (a default built once would carry 'propagation stopped' to later dispatches)", reference=5)
+    for fi in [f for f in p.all_functions() if f.module.name.startswith("clikit.api.event")]:
+        for prm, d in sorted(fi.defaults.items()):
+            if isinstance(d, ast.Constant) or (isinstance(d, ast.Name) and d.id in ("None", "True", "False")):
+                r.ok("%s(%s=%s)" % (fi.short, prm, norm(d)))
+            else:
+                r.fail(fi, d, "%s(%s=%s)" % (fi.name, prm, norm(d)), "the default of %s.%s is built once (%s) and shared by every call that omits it: state such as "
+                       "'propagation stopped' survives from one dispatch to the next" % (fi.short, prm, norm(d)))
+
+    # ---------------------------------------------------------------- R8
+    r = ctx.rule("C12-R8", "TAINT", "every registration facade forwards event name, listener and priority unchanged "
+                 "to the dispatcher", reference=1)
+    n_fac = 0
+    for fi in p.all_functions():
+        if fi.cls is ed:
+            continue
+        for cs in cg.sites_in(fi):
+            if add not in cs.targets:
+                continue
+            n_fac += 1
+            own = set(q.param_names(fi))
+            missing = []
+            for prm in q.param_names(add):
+                a = q.arg_for_param(cs.node, add, prm)
+                if prm in own and not (isinstance(a, ast.Name) and a.id == prm):
+                    missing.append(prm)
+            if missing:
+                r.fail(fi, cs.node, norm(cs.node), "%s has the parameter(s) %s but does not forward them to add_listener: every listener registered through it "
+                       "gets the default instead" % (fi.short, ", ".join(missing)))
+            else:
+                r.ok("%s forwards %s" % (fi.short, ", ".join(x for x in q.param_names(add) if x in own)))
+    if n_fac == 0:
+        r.vacuous_ok = True
     return ctx.results
 
 
